@@ -105,3 +105,107 @@ KERNELS += [
       r"void gboost_model_t::do_predict\(.*?\{\s*outputs\.reshape\(samples\.size\(\),\s*-1\)\.matrix\(\)\.rowwise\(\)\s*(\S+)\s*m_bias\.vector\(\)\.transpose\(\);",
       [(r"^=$", "0"), (r"^\+=$", "1")], [], "asm", ["C11"]),
 ]
+
+# ---- extension "stats": the code that COMPUTES and STORES the statistics (group `stats` -> coq/generated/Src_stats.v) ------------
+# src/machine/stats.cpp (store_stats / load_stats), include/nano/tensor/tensor.h (variance / stdev), src/machine/result.cpp
+# (the two store overloads, stats(), value(), optimum_trial(), closest_trial()), include/nano/core/stats.h (position kernels, the
+# same anchors as C20's src_pct_last / src_pct_same: C11_Stats.v proves the two translations equal, so that a change there is an
+# obligation of C11 as well)
+_SC = "src/machine/stats.cpp"
+_RC = "src/machine/result.cpp"
+_TH = "include/nano/tensor/tensor.h"
+_STORE = r"void nano::ml::store_stats\(.*?"
+_QSEL = [(r"values\.mean\(\)", "q_mean"), (r"values\.stdev\(\)", "q_stdev"),
+         (r"static_cast<scalar_t>\(values\.size\(\)\)", "q_count")]
+_QARGS = [("q_mean", "Z"), ("q_stdev", "Z"), ("q_count", "Z")]
+_FIELDS = ["m_mean", "m_stdev", "m_count", "m_per01", "m_per05", "m_per10", "m_per20", "m_per50", "m_per80", "m_per90",
+           "m_per95", "m_per99"]
+KERNELS += [
+    # which of (mean, stdev, count) is written to column c: the kernel is applied to the selectors (0, 1, 2)
+    K("src_st_col%d" % c, _SC, _STORE + r"stats\(%d\)\s*=\s*(.*?);" % c, _QSEL, _QARGS, "stats", ["C11"]) for c in range(3)
+] + [
+    # the percentage written to column c (an integer literal `N.0`; anything else leaves the accepted subset)
+    K("src_st_pct%d" % c, _SC, _STORE + r"stats\(%d\)\s*=\s*::percentile\(values,\s*(.*?)\);" % c,
+      [(r"^(\d+)\.0$", r"\1")], [], "stats", ["C11"]) for c in range(3, 12)
+] + [
+    # load_stats: the k-th initialiser of the aggregate (member k of stats_t) reads column ...
+    K("src_ld_col%d" % k, _SC, r"stats_t nano::ml::load_stats\(.*?return\s*\{\s*(?:stats\(\d+\),\s*){%d}stats\((\d+)\)" % k,
+      [], [], "stats", ["C11"]) for k in range(12)
+] + [
+    # tensor_t::variance / stdev (the clamp of /repo b0b87e4 is part of the translated expression)
+    K("src_var_guard", _TH, r"double variance\(\) const\s*\{.*?if \((.*?)\)\s*\{", [(r"size\(\)", "n")], [("n", "Z")], "stats", ["C11"]),
+    K("src_var_expr", _TH, r"double variance\(\) const\s*\{.*?variance\s*=\s*(std::max\(.*?\));",
+      [(r"array\.square\(\)\.sum\(\)", "sumsq"), (r"\b0\.0\b", "0")],
+      [("sumsq", "Z"), ("count", "Z"), ("average", "Z")], "stats", ["C11"]),
+    K("src_sd_guard", _TH, r"double stdev\(\) const\s*\{.*?if \((.*?)\)\s*\{", [(r"size\(\)", "n")], [("n", "Z")], "stats", ["C11"]),
+    K("src_sd_den", _TH, r"double stdev\(\) const\s*\{.*?stdev\s*=\s*std::sqrt\(variance\(\)\s*/\s*\((.*?)\)\);", [],
+      [("count", "Z")], "stats", ["C11"]),
+    # stats.h: the integer argument of the position and the one-element test (same anchors as C20)
+    K("src_st_pct_last", "include/nano/core/stats.h",
+      r"const double position\s*=\s*percentage\s*\*\s*static_cast<double>\((.*?)\)\s*/\s*100\.0\s*;",
+      [], [("size", "Z")], "stats", ["C11"]),
+    K("src_st_pct_same", "include/nano/core/stats.h",
+      r"std::ceil\(position\)\);\s*if \((.*?)\)\s*\{\s*return from_position\(lpos\);",
+      [], [("lpos", "Z"), ("rpos", "Z")], "stats", ["C11"]),
+]
+# result_t::store(trial, fold, ..): the k-th store_stats call reads row `row` of the train (0) / valid (1) tensor and writes the
+# sub-tensor (trial, fold, split, kind)
+_ST4 = r"store_stats\(%s_errors_losses\.tensor\(%s\), m_values\.tensor\(trial, fold, %s, %s\)\)"
+_WHO = [(r"^train$", "0"), (r"^valid$", "1")]
+for _k in range(4):
+    KERNELS += [
+        K("src_rs_store_who%d" % _k, _RC, _ST4 % (r"(\w+)", r"\d+", r"\d+", r"\d+"), _WHO, [], "stats", ["C11"], pick=_k),
+        K("src_rs_store_row%d" % _k, _RC, _ST4 % (r"\w+", r"(\d+)", r"\d+", r"\d+"), [], [], "stats", ["C11"], pick=_k),
+        K("src_rs_store_split%d" % _k, _RC, _ST4 % (r"\w+", r"\d+", r"(\d+)", r"\d+"), [], [], "stats", ["C11"], pick=_k),
+        K("src_rs_store_kind%d" % _k, _RC, _ST4 % (r"\w+", r"\d+", r"\d+", r"(\d+)"), [], [], "stats", ["C11"], pick=_k),
+    ]
+_FIN = r"::store_stats\(errors_losses\.tensor\(%s\), m_optims\.tensor\(%s\)\)"
+_LD4 = r"return load_stats\(m_values\.tensor\(%s, %s, %s, %s\)\);"
+_LDARGS = [("trial", "Z"), ("fold", "Z"), ("isplit", "Z"), ("ivalue", "Z")]
+_OPT = r"tensor_size_t result_t::optimum_trial\(\) const\s*\{.*?"
+_CLO = r"tensor_size_t result_t::closest_trial\(.*?\) const\s*\{.*?"
+_VAL = r"scalar_t result_t::value\(.*?\) const\s*\{.*?"
+KERNELS += [
+    K("src_rs_final_row%d" % k, _RC, _FIN % (r"(\d+)", r"\d+"), [], [], "stats", ["C11"], pick=k) for k in range(2)
+] + [
+    K("src_rs_final_kind%d" % k, _RC, _FIN % (r"\d+", r"(\d+)"), [], [], "stats", ["C11"], pick=k) for k in range(2)
+] + [
+    # stats(trial, fold, split, value): enum -> index, and the four indices handed to m_values.tensor
+    K("src_rs_isplit", _RC, r"const auto isplit\s*=\s*(.*?);", [(r"split == split_type::train", "is_train")],
+      [("is_train", "bool")], "stats", ["C11"]),
+    K("src_rs_ivalue_final", _RC, r"const auto ivalue\s*=\s*(.*?);", [(r"value == value_type::errors", "is_errors")],
+      [("is_errors", "bool")], "stats", ["C11"], pick=0),
+    K("src_rs_ivalue", _RC, r"const auto ivalue\s*=\s*(.*?);", [(r"value == value_type::errors", "is_errors")],
+      [("is_errors", "bool")], "stats", ["C11"], pick=1),
+    K("src_rs_final_load", _RC, r"return load_stats\(m_optims\.tensor\((.*?)\)\);", [], [("ivalue", "Z")], "stats", ["C11"]),
+    K("src_rs_load_a0", _RC, _LD4 % (r"(\w+)", r"\w+", r"\w+", r"\w+"), [], _LDARGS, "stats", ["C11"]),
+    K("src_rs_load_a1", _RC, _LD4 % (r"\w+", r"(\w+)", r"\w+", r"\w+"), [], _LDARGS, "stats", ["C11"]),
+    K("src_rs_load_a2", _RC, _LD4 % (r"\w+", r"\w+", r"(\w+)", r"\w+"), [], _LDARGS, "stats", ["C11"]),
+    K("src_rs_load_a3", _RC, _LD4 % (r"\w+", r"\w+", r"\w+", r"(\w+)"), [], _LDARGS, "stats", ["C11"]),
+    # value(trial, split, kind): the fold loop, the member that is summed, the denominator, the default arguments
+    K("src_rs_value_first", _RC, _VAL + r"for \(tensor_size_t fold\s*=\s*(.*?),", [], [], "stats", ["C11"]),
+    K("src_rs_value_cont", _RC, _VAL + r"for \(tensor_size_t fold\s*=[^;]*;\s*(.*?);", [], [("fold", "Z"), ("folds", "Z")],
+      "stats", ["C11"]),
+    K("src_rs_value_step", _RC, _VAL + r"for \(tensor_size_t fold\s*=[^;]*;[^;]*;\s*([^;{]*?)\)\s*\{",
+      [(r"^\+\+fold$", "fold + 1"), (r"^fold\+\+$", "fold + 1")], [("fold", "Z")], "stats", ["C11"]),
+    K("src_rs_value_field", _RC, _VAL + r"sum_mean\s*\+=\s*stats\.(\w+);",
+      [(r"^%s$" % f, str(i)) for i, f in enumerate(_FIELDS)], [], "stats", ["C11"]),
+    K("src_rs_value_den", _RC, _VAL + r"return sum_mean\s*/\s*static_cast<scalar_t>\((.*?)\);", [(r"folds\(\)", "folds")],
+      [("folds", "Z")], "stats", ["C11"]),
+    K("src_rs_value_dsplit", "include/nano/machine/result.h",
+      r"scalar_t value\(tensor_size_t trial, split_type\s*=\s*(.*?),\s*value_type\s*=\s*[\w:]+\) const;",
+      [(r"^split_type::train$", "0"), (r"^split_type::valid$", "1")], [], "stats", ["C11"]),
+    K("src_rs_value_dkind", "include/nano/machine/result.h",
+      r"scalar_t value\(tensor_size_t trial, split_type\s*=\s*[\w:]+,\s*value_type\s*=\s*(.*?)\) const;",
+      [(r"^value_type::errors$", "0"), (r"^value_type::losses$", "1")], [], "stats", ["C11"]),
+    # optimum_trial / closest_trial: first strict minimum
+    K("src_rs_opt_first", _RC, _OPT + r"for \(tensor_size_t trial\s*=\s*(.*?);", [], [], "stats", ["C11"]),
+    K("src_rs_opt_cont", _RC, _OPT + r"for \(tensor_size_t trial\s*=[^;]*;\s*(.*?);", [(r"trials\(\)", "trials")],
+      [("trial", "Z"), ("trials", "Z")], "stats", ["C11"]),
+    K("src_rs_opt_better", _RC, _OPT + r"if \((.*?)\)\s*\{\s*best_trial\s*=\s*trial;", [(r"value < best_value", "value_lt_best")],
+      [("value_lt_best", "bool")], "stats", ["C11"]),
+    K("src_rs_clo_cont", _RC, _CLO + r"for \(tensor_size_t trial\s*=[^;]*;\s*(.*?);", [],
+      [("trial", "Z"), ("max_trials", "Z")], "stats", ["C11"]),
+    K("src_rs_clo_better", _RC, _CLO + r"if \((.*?)\)\s*\{\s*best_trial\s*=\s*trial;",
+      [(r"distance < best_distance", "dist_lt_best")], [("dist_lt_best", "bool")], "stats", ["C11"]),
+]
